@@ -240,3 +240,34 @@ func WriteJSON(path string, v interface{}) {
 		Fatal("write %s: %v", path, err)
 	}
 }
+
+// Watchdog ends the process with a harness error (exit 2) when Kick is not
+// called for the given duration: a hang of the code under test must never
+// hang a check.
+type Watchdog struct {
+	mu   sync.Mutex
+	last time.Time
+	what string
+}
+
+func NewWatchdog(limit time.Duration) *Watchdog {
+	w := &Watchdog{last: time.Now()}
+	go func() {
+		for {
+			time.Sleep(limit / 4)
+			w.mu.Lock()
+			idle, what := time.Since(w.last), w.what
+			w.mu.Unlock()
+			if idle > limit {
+				Fatal("watchdog: no progress for %v (last: %s); the code under test or the harness is blocked", idle.Round(time.Second), what)
+			}
+		}
+	}()
+	return w
+}
+
+func (w *Watchdog) Kick(what string) {
+	w.mu.Lock()
+	w.last, w.what = time.Now(), what
+	w.mu.Unlock()
+}
